@@ -77,6 +77,9 @@ def KT.interp : Sexp → Option (Val → GoM (Try Val))
   | .list [.atom "kpanic", id, p] => do
     let id ← id.asInt?; let p ← p.asInt?
     pure fun x => do emit s!"k{id}:{x}"; goPanic s!"{p}"
+  | .list [.atom "ksuccnil", id] => do
+    let id ← id.asInt?
+    pure fun x => do emit s!"k{id}:{x}"; pure (.success .nil)
   | _ => none
 
 end FpVerif
